@@ -4,7 +4,9 @@ import PynguinModel.Model.PyMini
 
 * `{"mini": {"prog": <Prog>, "fuel": n}}` — run the PyMini program + test, slice every statement /
   assertion criterion with the backward slicer of `Model/Slice.lean`.
-* `{"trace": {"evs": [<Ev>…], "crits": [n…]}}` — slice a given trace (used for hand-made traces). -/
+* `{"trace": {"evs": [<Ev>…], "crits": [n…]}}` — slice a given trace (used for hand-made traces).
+* `{"akey": {"addr": n, "uses": [[addr, "name"]…]}}` — pending attribute uses `(addr, name)` as the keys
+  `_add_attribute_uses` stores, then the conversion at the creation of the object at `addr`. -/
 open Lean PynguinModel.Slice PynguinModel.PyMini
 
 deriving instance FromJson for Var
@@ -32,8 +34,13 @@ structure TraceCase where
   retNone : Option (List Nat)     -- positions of `return None` steps (for the statement path)
   deriving FromJson
 
+structure AKeyCase where
+  addr : Nat
+  uses : List (Nat × String)
+  deriving FromJson
+
 inductive Case where
-  | mini (c : MiniCase) | trace (c : TraceCase)
+  | mini (c : MiniCase) | trace (c : TraceCase) | akey (c : AKeyCase)
   deriving FromJson
 
 def sortDedup (l : List Nat) : List Nat := (l.mergeSort (· ≤ ·)).eraseDups
@@ -79,9 +86,22 @@ def runMini (c : MiniCase) : Json :=
         | some w => toJson (sortDedup (stmtCheckedLines w.trace (fun q => w.retNone.contains q) w.crits))
         | none => Json.null)]
 
+def runAKey (c : AKeyCase) : Json :=
+  -- `context.attr_uses` is a set: duplicates collapse
+  let keys := (c.uses.map (fun u => attrUseKey u.1 u.2.toList)).eraseDups
+  let r := convertAttrUses c.addr keys
+  Json.mkObj [
+    ("keys", toJson (keys.map String.ofList)),
+    ("names", toJson (r.1.eraseDups.map String.ofList)),
+    ("remaining", toJson (r.2.map String.ofList)),
+    ("covered", toJson (!r.1.isEmpty)),
+    -- per use: the name recovered from its own key (theorem: = the name)
+    ("recovered", toJson (c.uses.map (fun u => String.ofList (attrNameOfKey (attrUseKey u.1 u.2.toList)))))]
+
 def runCase : Case → Json
   | .mini c => runMini c
   | .trace c => runTrace c
+  | .akey c => runAKey c
 
 partial def loop (h : IO.FS.Stream) : IO Unit := do
   let line ← h.getLine
